@@ -57,7 +57,8 @@ NBUF = 16384        # XMLReader::kCharBufSize: the character buffer is refilled 
 
 
 def u16hex(s):
-    return "".join("%04X" % ord(c) for c in s) or "-"
+    b = s.encode("utf-16-be", "surrogatepass")
+    return b.hex().upper() or "-"
 
 
 def large_eol(ctx, xh, xm3):
@@ -479,7 +480,7 @@ def linecol(ctx, xh, xm3):
     col_after): at a start tag, line = 1 + number of normalised line ends in the text before the end of the tag,
     column = 1 + characters since the last one; SAXParser and SAX2XMLReader, all scanners."""
     rng = ctx.rng
-    H = lambda t: "".join("%04X" % ord(c) for c in t) or "-"
+    H = u16hex
     docs = []
     for k in range(60 if ctx.tier == "quick" else 3000):
         v11 = rng.random() < 0.3
@@ -549,7 +550,7 @@ def linecol(ctx, xh, xm3):
         for _ in range(rng.choice([2, 4, 8])):
             r = rng.random()
             if r < 0.3:
-                add("t" + E() + "u")
+                add("t" + rng.choice(["", "\t", "\U00010400", "\u00e9\t"]) + E() + "u" + rng.choice(["", "\t\t", "\U00010400\U0001F600"]))
             elif r < 0.45:
                 add("<!--k" + E() + "-->")
             elif r < 0.55:
@@ -619,6 +620,257 @@ def linecol(ctx, xh, xm3):
     ctx.coverage["traces_validated_against_impl"] += len(lines)
 
 
+def eol11_content(ctx, xh, xm3):
+    """XML 1.1 end-of-line handling of the real reader against the extracted model AND the extracted section 2.11
+    specification (T03_eol11, T03_eol11_decl): character data, CDATA, comment and attribute-value text of XML 1.1
+    documents with every line-end form (LF, CR, CR LF, NEL, LSEP, CR NEL, and the adjacent combinations CR CR LF,
+    CR NEL NEL, NEL LF, LSEP CR ...), in the document entity (XML declaration with LF / CR / CR LF inside it: the
+    declaration is read in XML 1.0 mode) and in an external parsed entity with and without a version 1.1 text
+    declaration; an XML 1.0 document keeps NEL / LSEP as data.  All scanners, SAX, SAX2, DOM, DOMLSParser."""
+    rng = ctx.rng
+    H = u16hex
+    forms = ["\n", "\r", "\r\n", "\x85", "\u2028", "\r\x85"]
+    docs = []
+    n = 36 if ctx.tier == "quick" else 1500
+    for k in range(n):
+        parts = []
+        for _ in range(rng.choice([1, 2, 3, 5, 9])):
+            parts.append(rng.choice(["", "a", "bc", " ", "\t", "\u00e9", "\U00010400"]))
+            parts.append("".join(rng.choice(forms) for _ in range(rng.choice([1, 1, 1, 2, 3]))))
+        parts.append(rng.choice(["", "z"]))
+        text = "x" + "".join(parts)
+        kind = k % 4          # 0: 1.1 document entity, 1: external entity with 1.1 text declaration, 2: external entity without, 3: XML 1.0 document
+        w = rng.choice([" ", "\n", "\r\n", "\r", " \n "])
+        decl11 = '<?xml%sversion="1.1"%s?>' % (w, rng.choice(["", w]))
+        docs.append((kind, decl11, text))
+    # model + spec: eoldoc11 <decl + prefix in 1.0 mode> <rest>; the part read in 1.0 mode is the declaration only
+    reqs = []
+    for kind, decl11, text in docs:
+        if kind == 3:
+            reqs.append("eol " + H(text))
+        else:
+            reqs.append("eol11s " + H(text))
+    mo = C02.run_lines(xm3, reqs)
+    dreq = ["eoldoc11 %s %s" % (H(d), H("<r>" + t)) for _, d, t in docs]
+    do = C02.run_lines(xm3, dreq)
+    lines, meta = [], []
+    for k, (kind, decl11, text) in enumerate(docs):
+        m_t, s_t = mo[k].split()
+        d_m, d_s = do[k].split()
+        if m_t != s_t or (kind == 0 and d_m != d_s):
+            ctx.violation("eol11", {"what": "extracted XML 1.1 reader model and extracted section 2.11 specification differ "
+                                            "(T03_eol11 / T03_eol11_decl no longer describe the model)", "request": reqs[k],
+                                    "model": m_t, "spec": s_t}, no_input=True)
+            continue
+        extra = ""
+        if kind == 0:
+            doc = decl11 + "<r>" + text + "<!--" + text + "--><![CDATA[" + text + "]]></r>"
+            scs = C02.SCANNERS
+        elif kind == 3:
+            doc = rng.choice(["", '<?xml version="1.0"?>']) + "<r>" + text + "<!--" + text + "--><![CDATA[" + text + "]]></r>"
+            scs = C02.SCANNERS
+        else:
+            tdecl = "<?xml version='1.1' encoding='UTF-8'?>" if kind == 1 else ""
+            doc = decl11 + '<!DOCTYPE r [<!ENTITY x SYSTEM "t.ent">]><r>&x;</r>'
+            extra = " t.ent=" + (tdecl + text + "<!--" + text + "--><![CDATA[" + text + "]]>").encode("utf-8").hex().upper()
+            scs = ["IG", "DG"]
+        want = "S0072 T%s M%s C%s E0072" % (s_t, s_t, s_t)
+        for sc in scs:
+            for a in C02.APIS:
+                ns = (k + len(sc) + len(a)) % 2
+                lines.append("parse %s %s %d %s -%s" % (a, sc, ns, doc.encode("utf-8").hex().upper(), extra))
+                meta.append((k, a, sc, want))
+    out = C02.run_lines(xh, lines, jobs=8)
+    nbad = 0
+    for (k, a, sc, want), req, o in zip(meta, lines, out):
+        ctx.count()
+        kind = docs[k][0]
+        ctx.distinct(("eol11", k, a, sc))
+        ev, errs, fh = C02.parse_impl(o)
+        errs = [e for e in errs if not e.startswith("W:")]
+        if errs or ev != want:
+            nbad += 1
+            if nbad <= 4:
+                ctx.violation("eol11", {
+                    "what": "%s/%s: %s: text delivered differs from the XML %s section 2.11 normalisation of the input%s" % (
+                        a, sc, ["XML 1.1 document entity", "external entity with version 1.1 text declaration",
+                                "external entity without text declaration in an XML 1.1 document", "XML 1.0 document"][kind],
+                        "1.0" if kind == 3 else "1.1", "; errors %s" % errs[:2] if errs else ""),
+                    "request": req, "impl": [ev[:600], errs, fh], "expect": {"fatal": False, "events": want}, "tag": "eol11"})
+    ctx.coverage["eol11_documents"] = len(docs)
+    ctx.coverage["traces_validated_against_impl"] += len(lines)
+
+
+def specified_flags(ctx, xh3, xm3):
+    """the infoset [specified] property and DTD defaulting: documents whose elements mix attributes written in the tag
+    with declared defaults (#FIXED and plain), in element sequences where the number of attributes grows after an
+    element that received defaults (the scanner's pooled XMLAttr objects are reused), on parser objects reused from
+    request to request (one harness process).  Observed: DOMAttr::getSpecified() of the XercesDOMParser tree and
+    XMLAttr::getSpecified() as the scanner hands it to XMLDocumentHandler::startElement (SAXParser advanced handler);
+    IG and DG scanners x namespaces on/off.  Expected: the extracted Model03.att_list (T03_specified_*) of the
+    attributes written and the defaults declared; additionally literal => specified is checked directly."""
+    rng = ctx.rng
+    H = lambda t: "".join("%04X" % ord(c) for c in t)
+    docs = []
+    for k in range(30 if ctx.tier == "quick" else 1500):
+        enames = ["a", "b", "c", "d"]
+        decl = {}
+        dtd = ""
+        for e in enames:
+            defs = []
+            for an in rng.sample(["p", "q", "s", "t", "u"], rng.choice([0, 1, 2, 3])):
+                kind = rng.choice(["default", "fixed", "implied"])
+                val = rng.choice(["dv", "x y", "1"])
+                if kind == "implied":
+                    dtd += "<!ATTLIST %s %s CDATA #IMPLIED>" % (e, an)
+                else:
+                    dtd += "<!ATTLIST %s %s CDATA %s'%s'>" % (e, an, "#FIXED " if kind == "fixed" else "", val)
+                    defs.append((an, val, kind))
+            decl[e] = defs
+        body, exp = [], []
+        cnt = 0
+        for _ in range(rng.choice([3, 5, 8])):
+            e = rng.choice(enames)
+            cnt = min(cnt + rng.choice([0, 1, 2]), 6)          # growing attribute counts
+            lit = []
+            for an in rng.sample(["p", "q", "s", "t", "u", "v", "w"], rng.choice([0, min(cnt, 7)])):
+                fixed = [d for d in decl[e] if d[0] == an and d[2] == "fixed"]
+                lit.append((an, fixed[0][1] if fixed else rng.choice(["L", "m n", ""])))
+            body.append("<%s%s/>" % (e, "".join(' %s="%s"' % a for a in lit)))
+            exp.append((e, lit, [(d[0], d[1]) for d in decl[e]]))
+        doc = "<!DOCTYPE r [%s]><r>%s</r>" % (dtd, "".join(body))
+        docs.append((doc, [("r", [], [])] + exp))
+    mreq = []
+    for doc, exp in docs:
+        for e, lit, defs in exp:
+            f = lambda l: ",".join("%s=%s" % (H(n), H(v)) for n, v in l) or "-"
+            mreq.append("attlist %s %s" % (f(lit), f(defs)))
+    mo = C02.run_lines(xm3, mreq)
+    want = []
+    i = 0
+    for doc, exp in docs:
+        toks = []
+        for e, lit, defs in exp:
+            items = [] if mo[i] == "-" else mo[i].split(" ")
+            i += 1
+            toks.append(";".join([H(e)] + sorted(items)))
+        want.append(" ".join(toks))
+    lines, meta = [], []
+    for k, (doc, exp) in enumerate(docs):
+        for sc in ("IG", "DG"):
+            for ns in (0, 1):
+                for a in ("dom", "sax"):
+                    lines.append("attrs %s %s %d %s" % (a, sc, ns, doc.encode().hex().upper()))
+                    meta.append((k, a, sc, ns))
+    out = C02.run_lines(xh3, lines, jobs=1)           # one process: the parser objects are reused
+    nbad = 0
+    for (k, a, sc, ns), req, o in zip(meta, lines, out):
+        ctx.count()
+        ctx.distinct(("specified", k, a, sc, ns))
+        got, errs = (o.split(" | ") + ["-"])[:2]
+        if got != want[k] or errs != "-":
+            nbad += 1
+            if nbad <= 4:
+                gt, wt = got.split(" "), want[k].split(" ")
+                j = next((i for i in range(min(len(gt), len(wt))) if gt[i] != wt[i]), min(len(gt), len(wt)))
+                ctx.violation("specified", {
+                    "what": "%s/%s namespaces=%d: attributes (name=value:specified) of element %d are %s, expected %s "
+                            "(written in the tag => specified, declared default not written => not specified)%s" % (
+                                a, sc, ns, j, gt[j] if j < len(gt) else "<missing>", wt[j] if j < len(wt) else "<none>",
+                                "; errors %s" % errs if errs != "-" else ""),
+                    "request": req, "harness": "xh_C03", "impl": got, "expected": want[k], "document": docs[k][0], "tag": "specified"})
+    ctx.coverage["specified_documents"] = len(docs)
+    ctx.coverage["traces_validated_against_impl"] += len(lines)
+
+
+def nested_locator(ctx, xh3, xm3):
+    """Locator and error positions inside nested entities (ReaderMgr::getLastExtEntityInfo): three levels - document
+    entity -> external parsed entity (several lines) -> internal entity whose replacement text contains start tags (and,
+    in a third of the documents, a reference to an undeclared entity = a fatal error inside the innermost level).
+    Expected at every start tag: systemId and line:column of the nearest enclosing EXTERNAL entity = extracted
+    Model03.locator of the reader stack (T03_locator_nearest_external); SAXParser and SAX2XMLReader, IG and DG."""
+    rng = ctx.rng
+    H = lambda t: "".join("%04X" % ord(c) for c in t)
+    docs = []
+    for k in range(24 if ctx.tier == "quick" else 1000):
+        eol = rng.choice(["\n", "\r\n", "\r"])
+        pre_doc = "".join(rng.choice(["", " ", "<!--c-->"]) + eol for _ in range(rng.choice([0, 1, 4, 9])))
+        inner2 = rng.random() < 0.4
+        bad = rng.random() < 0.33
+        int_text = "A<e/>B" + ("&in2;" if inner2 else "") + ("&undeclared;" if bad else "<f/>")
+        in2_text = "<g/>"
+        ext_pre = "".join("l%d" % j + rng.choice(["", " ", "\t"]) + eol for j in range(rng.choice([0, 1, 2, 5]))) + rng.choice(["", " ", "xx\t"])
+        ext = ext_pre + "&int;" + " tail<k/>" + eol
+        dtd = '<!DOCTYPE r [<!ENTITY int "%s"><!ENTITY in2 "%s"><!ENTITY x SYSTEM "ext.ent">]>' % (int_text, in2_text)
+        head = pre_doc + dtd + eol
+        doc = head + "<r>&x;</r>"
+        # expected S tokens: (name, sysid, reader stack from the top)
+        d_r = head + "<r>"
+        d_x = head + "<r>&x;"
+        e_ref = ext_pre + "&int;"
+        toks = [("r", "xh", ["e" + H(d_r)])]
+        toks.append(("e", "ext.ent", ["i" + H("A<e/>"), "e" + H(e_ref), "e" + H(d_x)]))
+        if inner2:
+            toks.append(("g", "ext.ent", ["i" + H("<g/>"), "i" + H("A<e/>B&in2;"), "e" + H(e_ref), "e" + H(d_x)]))
+        err = None
+        if bad:
+            err = ("ext.ent", ["i" + H(int_text), "e" + H(e_ref), "e" + H(d_x)])
+        else:
+            toks.append(("f", "ext.ent", ["i" + H(int_text), "e" + H(e_ref), "e" + H(d_x)]))
+            toks.append(("k", "ext.ent", ["e" + H(e_ref + " tail<k/>"), "e" + H(d_x)]))
+        docs.append((doc, ext, toks, err))
+    mreq = []
+    for doc, ext, toks, err in docs:
+        for t in toks:
+            mreq.append("locstack 10 " + " ".join(t[2]))
+        if err:
+            mreq.append("locstack 10 " + " ".join(err[1]))
+    mo = C02.run_lines(xm3, mreq)
+    want = []
+    i = 0
+    for doc, ext, toks, err in docs:
+        w = []
+        for t in toks:
+            l, c = mo[i].split()
+            i += 1
+            w.append("%s@%s:%s:%s" % (H(t[0]), t[1], l, c))
+        we = None
+        if err:
+            we = "%s:%s" % (err[0], mo[i].split()[0])       # line of the error (the column convention of errors is C02's subject)
+            i += 1
+        want.append((" ".join(w), we))
+    lines, meta = [], []
+    for k, (doc, ext, toks, err) in enumerate(docs):
+        for sc in ("IG", "DG"):
+            for a in ("sax", "sax2"):
+                lines.append("loc %s %s %d %s ext.ent=%s" % (a, sc, (k + len(a)) % 2, doc.encode().hex().upper(), ext.encode().hex().upper()))
+                meta.append((k, a, sc))
+    out = C02.run_lines(xh3, lines, jobs=4)
+    nbad = 0
+    for (k, a, sc), req, o in zip(meta, lines, out):
+        ctx.count()
+        ctx.distinct(("nested-locator", k, a, sc))
+        got, errs = (o.split(" | ") + ["-"])[:2]
+        w, we = want[k]
+        problem = None
+        if got != w:
+            problem = "Locator at the start tags is %s, expected %s" % (got, w)
+        elif we is None and errs != "-":
+            problem = "errors on a well-formed document: %s" % errs
+        elif we is not None:
+            fe = [e for e in errs.split(" ") if e.startswith("F@")]
+            if not fe or ":".join(fe[0][2:].split(":")[:2]) != we:
+                problem = "the fatal error inside the internal entity is reported at %s, expected systemId:line %s" % (errs, we)
+        if problem:
+            nbad += 1
+            if nbad <= 4:
+                ctx.violation("nested-locator", {
+                    "what": "%s/%s: %s (position = the one reached in the nearest enclosing external entity)" % (a, sc, problem),
+                    "request": req, "harness": "xh_C03", "impl": o, "document": docs[k][0], "ext.ent": docs[k][1], "tag": "nested-locator"})
+    ctx.coverage["nested_locator_documents"] = len(docs)
+    ctx.coverage["traces_validated_against_impl"] += len(lines)
+
+
 def remerge(ev):
     out = []
     for t in ev.split(" "):
@@ -645,7 +897,7 @@ def run(ctx):
     # F3 witnesses first
     C02.replay_witnesses(ctx, xh, {"F3": lambda req, errs, fh: True})   # refined below: printed only when the class shows
     ctx.known_hits[:] = [k for k in ctx.known_hits if not k.startswith("F3:")]
-    vals = gen_values(rng, 250 if ctx.tier == "quick" else 5000)
+    vals = gen_values(rng, 200 if ctx.tier == "quick" else 5000)
     vals = [[(False, 0x78), (True, 9), (True, 9), (False, 0x79), (True, 0x20), (True, 0x20), (False, 0x7A)]] + vals
     lines = []
     idx = []
@@ -712,6 +964,10 @@ def run(ctx):
     ns_names(ctx, xh)
     dtd_events(ctx, xh)
     linecol(ctx, xh, xm3)
+    eol11_content(ctx, xh, xm3)
+    xh3 = ctx.harness("C03")
+    specified_flags(ctx, xh3, xm3)
+    nested_locator(ctx, xh3, xm3)
     ctx.coverage["attnorm_cases"] = len(vals)
     ctx.coverage["traces_validated_against_impl"] += len(lines)
     ctx.coverage["rule"] += ("; attribute normalisation: %d raw values x {NMTOKENS, CDATA} x {IG, DG} x namespaces x 4 APIs "
